@@ -44,13 +44,16 @@ def check(w, tier, t0):
     if tier == "quick":
         spaces = [dict(METHODS='{"Where", "Or", "Returning"}', HOWS='{"Session"}', FINISHERS='{"Find", "Count"}', MAXOPS=4, MAXHANDLES=2),
                   dict(METHODS='{"Model", "Order"}', HOWS='{"Session", "SessionNewDBCtx", "SessionNewDBSkipHooks"}', FINISHERS='{"Count", "Find", "Create"}', MAXOPS=4, MAXHANDLES=2),
-                  dict(METHODS='{"Model", "Order"}', HOWS='{"Session"}', FINISHERS='{"Count", "Find"}', MAXOPS=5, MAXHANDLES=2)]
+                  dict(METHODS='{"Model", "Order"}', HOWS='{"Session"}', FINISHERS='{"Count", "Find"}', MAXOPS=5, MAXHANDLES=2),
+                  dict(METHODS='{"SelectRel", "Where"}', HOWS='{"Session"}', FINISHERS='{"DeleteRec", "Find"}', MAXOPS=4, MAXHANDLES=2)]
         nrand = 800
     else:
         spaces = [dict(METHODS='{"Where", "Or", "Returning", "Joins"}', HOWS='{"Session", "WithContext"}', FINISHERS='{"Find", "Count", "Update"}', MAXOPS=5, MAXHANDLES=2),
                   dict(METHODS='{"Returning"}', HOWS='{"Session"}', FINISHERS='{"Update"}', MAXOPS=8, MAXHANDLES=2),
                   dict(METHODS='{"Model", "Order", "Where"}', HOWS='{"Session", "SessionCtx", "SessionNewDBCtx", "SessionNewDBSkipHooks", "SessionNewDBPrepare", "SessionFull"}',
-                       FINISHERS='{"Count", "Find", "Create", "Pluck"}', MAXOPS=5, MAXHANDLES=3)]
+                       FINISHERS='{"Count", "Find", "Create", "Pluck"}', MAXOPS=5, MAXHANDLES=2),
+                  dict(METHODS='{"SelectRel", "SelectAssoc", "Where"}', HOWS='{"Session", "WithContext"}', FINISHERS='{"DeleteRec", "Find", "Delete"}', MAXOPS=5, MAXHANDLES=2),
+                  dict(METHODS='{"Scopes"}', HOWS='{"Session"}', FINISHERS='{"Find"}', MAXOPS=7, MAXHANDLES=2)]
         nrand = 12000
     states = trans = 0
     events = []
@@ -101,7 +104,7 @@ def check(w, tier, t0):
     samples = [{"real": e["real"], "ops": e["ops"][:8]} for e in (events[len(events) // 2], events[-1])]
     cov = {"states": states, "transitions": trans, "traces_validated_against_impl": len(events), "samples": samples,
            "evaluations": nfin, "distinct_nontrivial": len(nontrivial),
-           "rule": "one evaluation = one finisher executed from a handle of a history and compared with the same path replayed alone on a fresh gorm.Open; histories: %d from the TLC state graphs %s (every interleaving of derive/extend/session/finish) + %d random histories of 8-48 operations over Where/Or/Not/Select/Omit/Order/Limit/Offset/Group+Having/Joins/Distinct/Unscoped/Scopes/Clauses(Returning, OrderBy, Locking, OnConflict)/Table/Model/Attrs/Assign, handles re-created by Session (plain, NewDB, Context, SkipHooks, PrepareStmt and combinations)/WithContext/Debug, finishers in DryRun and for real on SQLite; non-trivial = at least two derivations/sessions" % (nhist, spaces, nrand),
+           "rule": "one evaluation = one finisher executed from a handle of a history and compared with the same path replayed alone on a fresh gorm.Open; histories: %d from the TLC state graphs %s (every interleaving of derive/extend/session/finish) + %d random histories of 8-48 operations over Where/Or/Not/Select/Omit/Order/Limit/Offset/Group+Having/Joins/Distinct/Unscoped/Scopes/Clauses(Returning, OrderBy, Locking, OnConflict)/Table/Model/Attrs/Assign/Select of associations/Preload, every fourth a 'capacity pattern' (one appending method k times, a new handle, sibling chains appending once more before any is finished), handles re-created by Session (plain, NewDB, Context, SkipHooks, PrepareStmt and combinations)/WithContext/Debug, finishers in DryRun and for real on SQLite; non-trivial = at least two derivations/sessions" % (nhist, spaces, nrand),
            "exhaustive": True, "histories_enumerated": nhist}
     lib.write_evidence(PROP, tier, "model_checking", cov, time.time() - t0, len(verdict.violations),
                        ["a chain value is continued or finished once (re-using a non-reusable chain value is the documented misuse)", "fixed NowFunc",
